@@ -771,7 +771,7 @@ def corpus_lines(prop_id):
 def coq_crosscheck(chk, results, limit=40):
     """Re-evaluate accepted histories with vm_compute inside coqc and compare the projections with
     the extracted OCaml model's."""
-    sample = [r for r in results if r.mline and r.model_out and r.model_out.startswith("OK ")][:limit]
+    sample = [r for r in results if r.mline and r.mline.startswith("antsrun ") and r.model_out and r.model_out.startswith("OK ")][:limit]
     if not sample:
         return 0
     outs = common.run_model([r.mline.replace("antsrun", "antscoq", 1) for r in sample])
